@@ -272,6 +272,10 @@ func deviations() []deviation {
 	add(deviation{name: "expiry==time", plan: func(p *hplan) { t := p.Time; p.Expiry = &t }})
 	add(deviation{name: "expiry=time+1s", benign: true, plan: func(p *hplan) { t := p.Time.Add(time.Second); p.Expiry = &t }})
 	add(deviation{name: "no-expiry", benign: true, plan: func(p *hplan) { p.Expiry = nil }})
+	// content types that a media-type parser would normalise: they are returned exactly as signed
+	add(deviation{name: "cty-mixed-case", benign: true, plan: func(p *hplan) { p.Cty = "Application/Vnd.CNCF.Notary.Payload.V1+JSON" }})
+	add(deviation{name: "cty-with-parameters", benign: true, plan: func(p *hplan) { p.Cty = "application/vnd.cncf.notary.payload.v1+json; profile=other;charset=utf-7" }})
+	add(deviation{name: "cty-not-a-media-type", plan: func(p *hplan) { p.Cty = " not / a media type ;;" }})
 	add(deviation{name: "scheme-other", plan: func(p *hplan) { p.Scheme = "notary.x509.other" }})
 	add(deviation{name: "scheme-empty", plan: func(p *hplan) { p.Scheme = "" }})
 	add(deviation{name: "payload-empty", plan: func(p *hplan) { p.Payload = []byte{} }})
@@ -350,6 +354,15 @@ func deviations() []deviation {
 	add(deviation{name: "time-zone", benign: true, j: func(p *hplan) []func(*jwsSpec) {
 		return []func(*jwsSpec){jSet(p.timeLabel(), jstr(p.Time.In(time.FixedZone("x", 5*3600+1800)).Format(time.RFC3339)))}
 	}})
+	// expiry and signing time are the same instant written with different UTC offsets: still "not later"
+	for _, zz := range [][2]int{{5*3600 + 45*60, 0}, {0, -(3*3600 + 1800)}, {-8 * 3600, 9 * 3600}} {
+		zz := zz
+		add(deviation{name: fmt.Sprintf("expiry==time-offsets%+d/%+d", zz[0]/60, zz[1]/60), plan: func(p *hplan) { t := p.Time; p.Expiry = &t },
+			j: func(p *hplan) []func(*jwsSpec) {
+				return []func(*jwsSpec){jSet(p.timeLabel(), jstr(p.Time.In(time.FixedZone("a", zz[0])).Format(time.RFC3339))),
+					jSet(kExp, jstr(p.Time.In(time.FixedZone("b", zz[1])).Format(time.RFC3339)))}
+			}})
+	}
 	add(deviation{name: "expiry-tag0", c: C(cSet(kExp, cborTag0("2099-01-01T00:00:00Z")))})
 	add(deviation{name: "expiry-untagged", c: C(cSet(kExp, int64(4102444800)))})
 	add(deviation{name: "expiry-zero-time", j: J(jSet(kExp, `"0001-01-01T00:00:00Z"`)), c: C(cSet(kExp, cborTag1Int(-62135596800)))})
@@ -401,6 +414,10 @@ func deviations() []deviation {
 	add(deviation{name: "crit-dup-attr", plan: func(p *hplan) {
 		p.Attrs = append(p.Attrs, hattr{TextKey: "vendor.policy", Raw: `"strict"`, Val: "strict", Crit: true})
 	}, j: J(jCrit(func(l []string) []string { return append(l, "vendor.policy") })), c: C(cCrit(func(l []any) []any { return append(l, "vendor.policy") }))})
+	// crit names a header that is present only under another letter case: JWS member names are case-sensitive
+	add(deviation{name: "crit-case-variant-of-attr", plan: func(p *hplan) {
+		p.Attrs = append(p.Attrs, hattr{TextKey: "x-policy", Raw: `"strict"`, Val: "strict", Crit: false})
+	}, j: J(jCrit(func(l []string) []string { return append(l, "X-Policy") })), c: C(cCrit(func(l []any) []any { return append(l, "X-Policy") }))})
 	add(deviation{name: "crit-lists-absent-attr", j: J(jCrit(func(l []string) []string { return append(l, "com.example.absent") })),
 		c: C(cCrit(func(l []any) []any { return append(l, "com.example.absent") }))})
 	add(deviation{name: "ext-big-uint", c: C(cSet("x.big", uint64(12345678901234567890)))})
@@ -423,6 +440,9 @@ func deviations() []deviation {
 	add(deviation{name: "sig-flip", j: J(func(s *jwsSpec) { s.ExtraTop = append(s.ExtraTop, jMember{"\x00flip", ""}) }), c: C(func(s *coseSpec) { s.Unprotected = append(s.Unprotected, cEntry{"\x00flip", 0}) })})
 	add(deviation{name: "sig-empty", j: J(func(s *jwsSpec) { e := ""; s.SigB64 = &e }), c: C(func(s *coseSpec) { s.Sig = []byte{} })})
 	add(deviation{name: "protected-not-json", j: J(func(s *jwsSpec) { t := "not json"; s.ProtectedTxt = &t })})
+	add(deviation{name: "protected-json-null", j: J(func(s *jwsSpec) { t := "null"; s.ProtectedTxt = &t })})
+	add(deviation{name: "protected-json-null-spaces", j: J(func(s *jwsSpec) { t := " null "; s.ProtectedTxt = &t })})
+	add(deviation{name: "protected-json-string", j: J(func(s *jwsSpec) { t := `"x"`; s.ProtectedTxt = &t })})
 	add(deviation{name: "protected-json-array", j: J(func(s *jwsSpec) { t := "[1]"; s.ProtectedTxt = &t })})
 	add(deviation{name: "protected-b64-bad", j: J(func(s *jwsSpec) { t := "@@@"; s.ProtectedB64 = &t })})
 	add(deviation{name: "payload-b64-bad", j: J(func(s *jwsSpec) { t := "%%%"; s.PayloadB64 = &t })})
@@ -614,6 +634,11 @@ func emitEnvelopeOut(w *CaseWriter, mt string, b []byte, labels []string, expect
 }
 
 func applyDev(p *hplan, d deviation) bool {
+	if d.plan != nil && (d.j != nil || d.c != nil) { // a two-level deviation applies only to the formats it has a part for
+		if (p.Fmt == 0 && d.j == nil) || (p.Fmt != 0 && d.c == nil) {
+			return false
+		}
+	}
 	if d.plan != nil {
 		d.plan(p)
 	}
